@@ -44,6 +44,27 @@ pub struct Job {
     pub must_be_nontrivial: bool,
     /// human-readable expected behaviour (reference outcomes), for `sched-mc show`
     pub show: Option<Arc<dyn Fn() -> String + Send + Sync>>,
+    /// a sequential (no controlled scheduler) exhaustive enumeration instead of a schedule
+    /// exploration: explicit-state search over operation histories, program sweeps
+    pub seq: Option<SeqFn>,
+}
+
+/// `(partition, deadline, only-this-witness)` -> report
+pub type SeqFn = Arc<dyn Fn((usize, usize), Option<Instant>, Option<&Value>) -> SeqReport + Send + Sync>;
+
+#[derive(Default)]
+pub struct SeqReport {
+    pub evaluations: u64,
+    pub states: u64,
+    pub transitions: u64,
+    pub nontrivial: u64,
+    pub completed: bool,
+    pub max_depth: usize,
+    pub samples: Vec<Value>,
+    pub digests: Vec<u64>,
+    /// (key, detail, witness)
+    pub violations: Vec<(String, String, Value)>,
+    pub extra: Value,
 }
 
 thread_local! {
@@ -114,6 +135,9 @@ pub fn run_job(
     only: Option<Vec<Dev>>,
     known: &KnownFindings,
 ) -> Result<JobReport, String> {
+    if let Some(seq) = &job.seq {
+        return Ok(run_seq_job(prop, job, seq, part, deadline, known, None));
+    }
     let body = job.body.clone();
     let wrapped = move || {
         let r = body();
@@ -260,4 +284,47 @@ pub fn run_job(
         "must_be_nontrivial": job.must_be_nontrivial,
     });
     Ok(JobReport { value, violation, known: known_hits })
+}
+
+pub fn run_seq_job(
+    prop: &str,
+    job: &Job,
+    seq: &SeqFn,
+    part: (usize, usize),
+    deadline: Option<Instant>,
+    known: &KnownFindings,
+    only: Option<&Value>,
+) -> JobReport {
+    let started = Instant::now();
+    let rep = seq(part, deadline, only);
+    let mut violation = None;
+    let mut known_hits = Vec::new();
+    let mut known_count = 0u64;
+    for (key, detail, witness) in rep.violations {
+        let detail: String = detail.chars().take(2500).collect();
+        let v = json!({
+            "property": prop, "job": job.id, "family": job.family, "granularity": "sequential",
+            "deviations": [], "seq_witness": witness, "key": key, "detail": detail,
+            "hang": false, "hang_is_violation": false, "describe": job.describe, "steps": 0,
+        });
+        if known.is_known(prop, &key) {
+            known_count += 1;
+            if known_hits.len() < 3 {
+                known_hits.push(v);
+            }
+        } else if violation.is_none() {
+            violation = Some(v);
+        }
+    }
+    let value = json!({
+        "job": job.id, "family": job.family, "granularity": "sequential", "bound": 0, "split": job.split,
+        "executions": rep.evaluations, "by_depth": [rep.evaluations], "root_steps": 0, "max_steps": rep.max_depth,
+        "completed": rep.completed, "deadline_hit": !rep.completed,
+        "distinct_traces": rep.digests.len(), "trace_digests": rep.digests, "nontrivial_digests": [],
+        "digest_cap_hit": false, "nontrivial_executions": rep.nontrivial, "reexecution_executions": 0, "abort_executions": 0,
+        "known_count": known_count, "sample": rep.samples.first(), "samples": rep.samples, "describe": job.describe,
+        "wall_s": started.elapsed().as_secs_f64(), "must_be_nontrivial": job.must_be_nontrivial,
+        "seq": {"states": rep.states, "transitions": rep.transitions, "nontrivial": rep.nontrivial, "max_depth": rep.max_depth, "extra": rep.extra},
+    });
+    JobReport { value, violation, known: known_hits }
 }
